@@ -449,12 +449,23 @@ impl Driver {
             let res = catch_unwind_io(AssertUnwindSafe(|| key.as_mut().carrier.call_blocking()));
             #[cfg(compio_verif)]
             crate::verif::emit(crate::verif::Event::PoolDone { id: verif_id });
+            #[cfg(compio_verif)]
+            let mut verif_delivered = true;
             if let Err(e) = completed.send(Entry::new(key.into_inner(), res)) {
                 // The driver is gone. Like a `FrozenKey`, the entry must not be
                 // released on this thread: its reference count and the resources
                 // of the operation belong to the driver's thread.
                 std::mem::forget(e.into_inner());
+                #[cfg(compio_verif)]
+                {
+                    verif_delivered = false;
+                }
             }
+            #[cfg(compio_verif)]
+            crate::verif::emit(crate::verif::Event::PoolSent {
+                id: verif_id,
+                delivered: verif_delivered,
+            });
             waker.wake();
         };
         while let Err(e) = self.pool.dispatch(closure) {
